@@ -111,7 +111,7 @@ func init() {
 		Level: "proof",
 		Funcs: []string{"tcell.(*tScreen).parseRune", "tcell.(*tScreen).parseFunctionKey", "tcell.(*tScreen).parseFocus", "tcell.(*tScreen).parseClipboard",
 			"tcell.(*tScreen).parseXtermMouse", "tcell.(*tScreen).parseSgrMouse", "tcell.(*tScreen).collectEventsFromInput", "tcell.(*tScreen).inputLoop", "tcell.(*tScreen).escBefore"},
-		Custom: []func(*PropRun){c02Replays, c02KeyTables},
+		Custom: []func(*PropRun){c02Replays, c02KeyTables, c11DriverSplits},
 		Trusted: []string{"bytes.Buffer.ReadBytes consumes up to and including the first delimiter (assumed from its documentation; the body uses an assembly IndexByte); other bytes.Buffer methods executed from source",
 			"base64 Decode/DecodedLen: bounds only (assumed)", "transform.Transformer contract (bounds, no output without input)",
 			"composition: independence of the read chunking follows from the per-parser prefix contracts (complete => a non-empty prefix is consumed and the events depend on that prefix only; not complete => nothing touched; partial exactly for proper prefixes of acceptable input) and the driver contract - this meta-argument is written in DESIGN.md, not machine-checked; mainLoop/inputLoop (timers, channels) are outside"},
@@ -180,7 +180,7 @@ func init() {
 		ID:    "C11",
 		Level: "proof",
 		Funcs: []string{"tcell.(*tScreen).parseRune", "tcell.(*tScreen).parseFocus", "tcell.(*tScreen).parseFunctionKey", "tcell.(*tScreen).inputLoop", "tcell.(*tScreen).collectEventsFromInput", "tcell.(*tScreen).scanInput"},
-		Custom: []func(*PropRun){c11Paste, c02Replays, c11Charsets},
+		Custom: []func(*PropRun){c11Paste, c02Replays, c11Charsets, c11DriverSplits},
 		Trusted: []string{"transform.Transformer (the charset decoder): bounds and 'no output without consuming input' are assumed; WHICH rune a byte sequence decodes to is the decoder's business (x/text), not modelled",
 			"Tty.Read fills at most len(p) bytes and reports how many (assumed interface contract)",
 			"Go channels are FIFO; one reader of keychan (mainLoop): chunk order = read order (assumed)"},
